@@ -10,6 +10,7 @@
 mod driver;
 mod engine;
 mod histx;
+mod imgdec;
 mod plans;
 mod proofx;
 mod refmodel;
@@ -32,7 +33,7 @@ pub fn extra_evidence(_prop: &str, _tier: &str) -> Option<Value> {
 
 fn make_engine(prop: &str) -> Option<Box<dyn Engine>> {
     match prop {
-        "C01" | "C02" => Some(Box::new(histx::HistX::new())),
+        "C01" | "C02" | "C16" | "C19" => Some(Box::new(histx::HistX::new())),
         "C07" | "C08" | "C18" => Some(Box::new(proofx::ProofX::new())),
         _ => None,
     }
@@ -111,6 +112,16 @@ fn main() {
                     println!("  {}", viol.msg);
                 }
                 1
+            }
+        }
+        "decode" => {
+            let img = util::DirImage::snapshot(std::path::Path::new(&args[2])).expect("snapshot");
+            let meta = imgdec::decode_meta(&img);
+            println!("{:?}", meta);
+            let opts = imgdec::CheckOpts { structure: true, kv_equals_model: false, merkle: true, leaks: true };
+            match imgdec::check_image::<driver::B3>(&img, &Default::default(), &opts) {
+                Ok(r) => { println!("{:#?}", r); 0 }
+                Err(e) => { println!("IMAGE ERROR: {e}"); 1 }
             }
         }
         "plan" => {
